@@ -40,8 +40,9 @@ META = {
                           '_wynn_extrapolate/_vstack', 'numdifftools.finite_difference.LogRule._vstack/_apply/apply',
                           'numdifftools.extrapolation.Richardson.__call__/_estimate_error', 'numdifftools.extrapolation.dea3',
                           'numdifftools.core.Derivative.__call__/_get_functions/_derivative_nonzero_order'],
-    'bounds': {'quick': 'unit: (k,c) in {(3,2),(4,2),(5,2),(4,3)} and shapes (2,), (3,), plus (3,4)->(2,2) placement; '
-                        'end to end: shapes (), (3,), (2,2), (2,1,2), methods central/forward/complex/multicomplex',
+    'bounds': {'quick': 'unit: (k,c) in {(3,2),(4,2),(5,2),(4,3)} and shapes (2,), (3,), plus (3,4)->(2,2) placement, plus units with one '
+                        'all-NaN column (a point where f is undefined at every step) next to symbolic columns; '
+                        'end to end: shapes (), (3,), (2,2), (2,1,2), methods central/forward/complex/multicomplex, C- and Fortran-ordered x',
                'thorough': 'unit additionally (7,2),(5,3),(4,4)->(2,2) with forks'},
     'outside_claim': ['bit-identical float64 results follow from non-interference only under the assumption that each numpy '
                       'elementwise kernel is a deterministic function of its own operands (not checked here)',
